@@ -25,21 +25,21 @@ package timer
 //@   requires inv()
 //@   ensures [C18] @channel result == ite(t.tt == nil, t.ch, t.tt.C)
 //@   modifies nothing
+// Height and View are the observers of the epoch; the clauses below speak through them, not through the fields
+// that happen to hold it
 //@ func (*Timer).Height
-//@   ensures [C18] @latestEpoch result == t.height
-//@   modifies nothing
+//@   inline
 //@ func (*Timer).View
-//@   ensures [C18] @latestEpoch result == t.view
-//@   modifies nothing
+//@   inline
 
 //@ func (*Timer).Reset
 //@   requires inv()
 //@   ensures [C18] @inv inv()
-//@   ensures [C18] @latestEpoch t.height == height && t.view == view
+//@   ensures [C18] @latestEpoch t.Height() == height && t.View() == view
 //@   ensures [C18] @resetInstant t.s <= clock() && t.d == d && t.s >= old(clock())
 //@   ensures [C18] @zeroFiresNow implies(d == 0, t.tt == nil && chanlen(t.ch) == 1 && chanval(t.ch) == t.s)
 //@   ensures [C18] @neverEarly implies(d != 0, t.tt != nil && t.tt != old(t.tt) && deadline(t.tt) >= t.s + d)
-//@   modifies height, view, s, d, tt, $clock, $chan.len, $chan.val, $timer.deadline
+//@   modifies *
 //@ func (*Timer).stop
 //@   ensures t.tt == nil
 //@   modifies tt
@@ -53,6 +53,6 @@ package timer
 // assumption about callers: accumulated durations stay far from the int64 range
 //@   requires t.d + d <= 4611686018427387904 && t.d + d >= -4611686018427387904
 //@   ensures [C18] @inv inv()
-//@   ensures [C18] @accumulates t.d == old(t.d) + d && unchanged(t.s, t.height, t.view)
+//@   ensures [C18] @accumulates t.d == old(t.d) + d && unchanged(t.s, t.Height(), t.View())
 //@   ensures [C18] @neverEarly implies(t.tt != old(t.tt), t.tt != nil && deadline(t.tt) >= t.s + t.d)
 //@   modifies d, tt, $clock, $timer.deadline
